@@ -237,8 +237,14 @@ func Printable(name string, n int) string {
 func From(name string, n int, alphabet string) string {
 	b := make([]byte, n)
 	for i := range b {
-		k := IntRange(name+strconv.Itoa(i), 0, len(alphabet)-1)
-		b[i] = alphabet[k]
+		c := Byte(name + strconv.Itoa(i))
+		if pos > len(replay.Values) {
+			c = alphabet[0]
+		}
+		if strings.IndexByte(alphabet, c) < 0 {
+			panic(AssumeFailed{"From " + name})
+		}
+		b[i] = c
 	}
 	return string(b)
 }
